@@ -354,6 +354,26 @@ def analyse_verdict(run, rule, model, fi, list_param, mapping_param, depth):
         if s == "T" and n.kind == "next":
             findings.append(("after a condition was found falsy the loop continues without an error having been created", n, (nid, s)))
             break
+    # presence, not truth: the error object may be the user's own exception and may be falsy
+    def may_be_error(t):
+        alts = t[1] if t[0] == "phi" else (t,)
+        return any(is_errfact_call(a) for a in alts)
+
+    def truth_subjects(t):
+        """terms used as truth values in test term t (outside `is [not] None`)"""
+        if t[0] == "op" and t[1] in ("Not", "And", "Or"):
+            return [x for o in t[2] for x in truth_subjects(o)]
+        if t[0] == "op" and t[1] in ("cmp:Is", "cmp:IsNot") and len(t[2]) == 2 and t[2][1] == ("const", "None"):
+            return []
+        if t[0] == "call" and t[1] == ("builtin", "bool") and len(t[2]) == 1:
+            return truth_subjects(t[2][0])
+        return [t]
+
+    for n in h.cfg.nodes:
+        if n.kind == "test" and n.ast is not None:
+            for sub in truth_subjects(flow.term(n.ast, n)):
+                if may_be_error(sub):
+                    findings.append(("the error created for a violated contract is tested for TRUTH (`%s`), not for presence (`is not None`): an exception object that is falsy (it defines __len__ or __bool__) counts as no violation -- the remaining contracts are evaluated and the call goes on" % first_line(n.stmt).rstrip(":"), n, None))
     seen = set()
     for detail, node, key in findings:
         k2 = (detail, first_line(node.stmt) if node.stmt is not None else "")
